@@ -168,3 +168,21 @@ Lemma reloader_channels_never_block_senders :
   creates_unbounded "cache_msg_tx" "cache_msg_rx" HotReloader_start = true /\
   creates_unbounded "events_tx" "events_rx" HotReloader_make = true.
 Proof. vm_compute. split; reflexivity. Qed.
+
+(* the event branch: an event is handled, an empty channel is nothing, a disconnected channel
+   (the source let go of its sender) ends the loop -- it is never left permanently "ready" *)
+Definition events_branch_wf (f : fn_def) : bool :=
+  existsb (fun e => match e with
+                    | EIf (EBinary "==" (EPath ["ready"]) (ELit (LInt 1%N)))
+                        [EMatch s
+                           [(PTupleStruct ["Ok"] [PIdent m None], None, EMethod (EPath ["cache"]) "handle_events" [EPath [m']]);
+                            (PTupleStruct ["Err"] [PPath p1], None, ETuple []);
+                            (PTupleStruct ["Err"] [PPath p2], None, leave)]] None =>
+                      calls_method_on "events" "try_recv" s && String.eqb m m'
+                      && String.eqb (last p1 "") "Empty" && String.eqb (last p2 "") "Disconnected"
+                      && match leave with EBreak | EReturn None => true | EBlock b => existsb (fun x => match x with ESemi (EReturn None) | EBreak | ESemi EBreak => true | _ => false end) b | _ => false end
+                    | _ => false
+                    end) (outer_loop_body f).
+
+Lemma reloader_leaves_when_events_are_over : events_branch_wf hot_reloading_thread = true.
+Proof. vm_compute. reflexivity. Qed.
